@@ -61,13 +61,13 @@ PROPS = {
     ),
     "C01": dict(
         title="Write-then-read round trip is lossless",
-        lean_modules=["Gowarc.Props.C01", "Gowarc.Props.C01comp", "Gowarc.Props.C01acc"],
+        lean_modules=["Gowarc.Props.C01", "Gowarc.Props.C01comp", "Gowarc.Props.C01acc", "Gowarc.Props.C01gz"],
         audit_namespaces=["Gowarc.Props.C01"],
         n_quick=3000, n_thorough=40000,
-        required_theorems=["C01_framing", "C01_version_line", "C01_roundtrip", "unmarshal_serialized", "unmarshalTail_rest", "C01_accepts", "accept_core"],
+        required_theorems=["C01_framing", "C01_version_line", "C01_roundtrip", "unmarshal_serialized", "unmarshalTail_rest", "C01_accepts", "accept_core", "readsBack_gzip", "unmarshal_plain_start"],
         model_assumptions=["C01_roundtrip is stated for clean header fields (canonical names, values without edge white space or LF, no '=?' in the line: everything else is exactly the two listed findings C19-F17 / C19-F15), a truthful Content-Length, and the repair options off (with repairs on the reader may rewrite fields by design: C03/C07)",
                            "C01_accepts (validation side): a record that build returned under the strict policy is returned by unmarshal(marshal r ++ tail) under ANY reader policy/options with no error and no finding, same version, type, ordered fields and block, leaving tail; hypotheses: clean fields, caller supplied no digest fields and add-missing-digest on (caller-supplied digests are C03's subject), builder type = WARC-Type, reader skip-parse-block = builder's, unknown type => reader's unknown-type axis at ignore, reader default algorithm supported, hash output has the algorithm's size, decimal Content-Length re-parses to the block length",
-                           "gzip and the file writer/reader path are covered by correspondence (C04 theorems for the file level), not by these theorems"],
+                           "gzip: readsBack_gzip carries C01_accepts over to a record in its own gzip member under the codec law GzLaw (for the member g that compressing m produced, followed by anything, the decoder yields m, ends cleanly and has consumed exactly g) - the law is the recorded assumption about klauspost/gzip, validated per case by the harness; the file writer/reader path: C04_offset_reads_back (Props/C04reads.lean)"],
         design_ref="DESIGN.md section 5, C01",
         level_text="Executable model of build -> marshal -> unmarshal compared with the implementation on seeded records x builder options x parser options (incl. strict) x trailing bytes; "
                    "round-trip oracle on the implementation (same version, type, ordered fields, block, no finding, identical re-serialisation, tail untouched); theorems: "
@@ -191,10 +191,10 @@ PROPS = {
     ),
     "C04": dict(
         title="Writer and reader agree on record positions (random access)",
-        lean_modules=["Gowarc.Props.C04", "Gowarc.Props.C04junk"],
+        lean_modules=["Gowarc.Props.C04", "Gowarc.Props.C04junk", "Gowarc.Props.C04reads"],
         audit_namespaces=["Gowarc.Props.C04"],
         n_quick=1500, n_thorough=12000,
-        required_theorems=["C04_inv", "C04_tracked_size", "C04_offset", "C04_offset_stable", "C04_sequential", "C04_junk", "core_frame", "unmarshal_eq_core", "step_grows", "write_inv", "close_inv", "writeFailed_inv", "writeFailed_eq"],
+        required_theorems=["C04_inv", "C04_tracked_size", "C04_offset", "C04_offset_stable", "C04_sequential", "C04_junk", "core_frame", "unmarshal_eq_core", "step_grows", "write_inv", "close_inv", "writeFailed_inv", "writeFailed_eq", "C04_offset_reads_back", "reads_at"],
         model_assumptions=["write histories include records the marshaler fails on (op `failed`: the fit test and a file creation happen, nothing of the record stays in the file); the harness makes the marshaler fail before the first byte, inside the header, inside the block and after the whole record",
                            "member bytes (the marshaler's and the compressor's output) are data: the harness measures each member's length on disk and hands it to the model; everything the writer decides is modelled",
                            "C04_sequential is stated for any self-delimiting codec (dec (enc x ++ rest) = some (x, rest)); that gowarc's marshal/gzip and unmarshal form such a codec is checked by the read-back oracle (independent scanner, fresh reader at every offset, sequential reader under three source behaviours), not proved",
